@@ -47,7 +47,9 @@ VAL_OPS = ["todense", "toarray", "diag_0", "diag_1", "diag_m1", "diag_2", "diag_
            "ct", "ct_M", "ct_Mr", "ct_Mc", "ct_Mrc", "ct_bM", "ct_bMr", "ct_bMrc", "ct_Mbr", "ct_brc",
            "ct_S", "ct_Src", "cm", "cm_d"]
 # corner cases of the listed operations; exercised at depth 1 only (they would drown the compositions)
-CORNER_OPS = ["iadd_0", "isub_0", "iadd_D", "isub_D", "set_all", "gi_ll", "mm_Be", "cm_mix"]
+# (`+=`/`-=` with a scalar 0 or a dense array were tried and removed: DyadCarrier defines its in-place operators for
+#  dyadic operands only, and the property does not ask for more -> demanding them was a false alarm of the check)
+CORNER_OPS = ["set_all", "gi_ll", "mm_Be", "cm_mix"]
 ALL_OPS = DY_OPS + INP_OPS + VAL_OPS
 GI_DYAD = {"gi_ss", "gi_full", "gi_step", "gi_as", "gi_sa", "gi_ms", "gi_ls", "gi_el", "gi_empty"}
 NO_OPERAND = {"neg", "pos", "copy", "T", "transpose", "conj", "real", "imag", "add_0i", "radd_0i", "add_0f",
@@ -63,7 +65,7 @@ BOUNDS = {
                   depth0="every constructor variant x 5 shapes x dyads 0,1,2 x (u,v) types",
                   depth1="every operation x every (u,v[,operand]) type combination x dyads 0,1,2; shape and "
                          "constructor drawn per program from a seeded generator (every shape/constructor occurs); "
-                         "corner operations (+=/-= with 0 or dense, [:, :] = 0, two index lists, @ empty carrier, "
+                         "corner operations ([:, :] = 0, two index lists, @ empty carrier, "
                          "contract_multi with a real and a complex matrix) on 4 configurations each",
                   depth2="seeded half of all ordered pairs (carrier-valued or in-place op, any op), one drawn "
                          "configuration per pair",
